@@ -471,6 +471,57 @@ pub fn t_write_body<const K: usize>(ops: [u8; K], old_start: isize, new_start: i
     std::mem::forget(h); std::mem::forget(g);
 }
 
+/// (ii') writer lemma, no parser involved: the body `write_to` emits is a sequence of records `M x \n` whose '-' and ' '
+/// records, in order, are exactly the old side, whose '+' and ' ' records are exactly the new side, and a ' ' record is only
+/// written for a line that is equal on both sides.  Lines are 2 bytes (letter + newline), bytes symbolic (4-letter alphabet).
+/// With C01 lemma 1 (every such text parses to exactly its edit script) this gives write-then-parse for the body; the
+/// writer reads nothing but the two sequences and the start lines, so writing the re-parsed hunk reproduces the text.
+pub fn t_write_scan<const KO: usize, const KN: usize>(hdr: &'static [u8]) {
+    let ro: [u8; KO] = kani::any();
+    let rn: [u8; KN] = kani::any();
+    let mut lo = [[0u8; 2]; KO];
+    let mut ln = [[0u8; 2]; KN];
+    let mut i = 0;
+    while i < KO { lo[i] = [alpha(ro[i]), b'\n']; i += 1; }
+    i = 0;
+    while i < KN { ln[i] = [alpha(rn[i]), b'\n']; i += 1; }
+    let mut h: TextHunk = Hunk::new(3, 3, &b""[..]);
+    i = 0;
+    while i < KO { h.remove.content.push(&lo[i][..]); i += 1; }
+    i = 0;
+    while i < KN { h.add.content.push(&ln[i][..]); i += 1; }
+    let mut out = Sink::<64>::with_canned([hdr, &[], &[], &[], &[], &[], &[], &[]]);
+    let r = h.write_to(&mut out);
+    assert!(r.is_ok());
+    std::mem::forget(r);
+    // header line
+    let mut p = 0;
+    while p < hdr.len() { assert!(out.b[p] == hdr[p]); p += 1; }
+    assert!(out.b[p] == b'\n', "header line not terminated");
+    p += 1;
+    // records
+    let (mut io, mut inew) = (0usize, 0usize);
+    let mut recs = 0;
+    while p < out.n {
+        assert!(p + 3 <= out.n, "truncated record");
+        let (m, x, nl) = (out.b[p], out.b[p + 1], out.b[p + 2]);
+        assert!(nl == b'\n', "record not terminated");
+        if m == b'-' { assert!(io < KO && x == lo[io][0], "'-' record is not the next old-side line"); io += 1; }
+        else if m == b'+' { assert!(inew < KN && x == ln[inew][0], "'+' record is not the next new-side line"); inew += 1; }
+        else if m == b' ' {
+            assert!(io < KO && inew < KN && x == lo[io][0] && x == ln[inew][0], "context record for a line that differs between the sides");
+            io += 1; inew += 1;
+        } else { assert!(false, "unknown record marker"); }
+        p += 3;
+        recs += 1;
+        assert!(recs <= KO + KN, "verif-infra: more records than lines");
+    }
+    assert!(io == KO && inew == KN, "a line of one side is missing from the written hunk");
+    kani::cover!(recs < KO + KN, "a context record was written");
+    kani::cover!(recs == KO + KN, "no context record");
+    std::mem::forget(h);
+}
+
 /// (iii) file header: parse a concrete patch, write it, parse the written form: same kind, names, rename flag,
 /// modes, hashes, hunk count; writing again reproduces the written form.
 pub fn t_write_file(text: &[u8]) {
